@@ -583,7 +583,7 @@ func run(c *core.Ctx) {
 			}
 		}
 	}
-	reps := c.N(2, 80)
+	reps := c.N(2, 60)
 	idx := 0
 	for rep := 0; rep < reps; rep++ {
 		for si, sp := range specs {
